@@ -67,12 +67,16 @@ def t08_ts(run, fx):
         fam = fx.family(u)
         calls = [(fb, t) for fb in fam for _, t in fb.calls()]
         has_new_id = any(callee_is(t, "SubsetGlyphs::new_id") for _, t in calls)
-        walks_all = any(callee_is(t, "BTreeMap::<K, V, A>::iter_mut", "BTreeMap::<K, V, A>::values_mut") for _, t in calls) and any(callee_is(t, "Iterator::for_each") for _, t in calls)
-        # the closure stores new_id(*gid) through gid
+        over_all = any(callee_is(t, "BTreeMap::<K, V, A>::iter_mut", "BTreeMap::<K, V, A>::values_mut") for _, t in calls)
+        # consumed by for_each(closure), or by a `for` loop of the function that only ends when the iterator does
+        by_loop = False
+        if any(callee_is(t, "Iterator::next") for fb_, t in calls if fb_ is u):
+            import rules_C06
+            by_loop = not rules_C06.loop_early_exits(u)
+        walks_all = over_all and (any(callee_is(t, "Iterator::for_each") for _, t in calls) or by_loop)
+        # new_id(*gid) is stored through gid (in the closure, or in the loop body)
         stores = False
         for fb in fam:
-            if fb.kind != "Closure":
-                continue
             prov = sym.Prov(fb)
             for bi, blk in enumerate(fb.blocks):
                 for s in blk["s"]:
